@@ -1,0 +1,66 @@
+//go:build verif
+
+package airgapped
+
+import (
+	"github.com/corestario/kyber"
+)
+
+// Hooks for the deterministic-simulation harness in /verif (build tag "verif").
+
+// SimYield, when set, is called at the in-function points of ProcessOperation
+// that have no other seam (after the result was computed, after the operation
+// was logged). The harness uses it as a crash/yield point.
+var SimYield func(am *Machine, point string)
+
+func simYield(am *Machine, point string) {
+	if SimYield != nil {
+		SimYield(am, point)
+	}
+}
+
+// SimClose closes the LevelDB so that the directory can be reopened in-process.
+func (am *Machine) SimClose() error {
+	return am.db.Close()
+}
+
+// SimSnapshot returns a byte-exact copy of every key/value pair of the DB.
+func (am *Machine) SimSnapshot() (map[string][]byte, error) {
+	out := make(map[string][]byte)
+	iter := am.db.NewIterator(nil, nil)
+	defer iter.Release()
+	for iter.Next() {
+		out[string(iter.Key())] = append([]byte(nil), iter.Value()...)
+	}
+	return out, iter.Error()
+}
+
+// SimSecrets are the values that must never leave the machine.
+type SimSecrets struct {
+	SecKey       kyber.Scalar
+	BaseSeed     []byte
+	DealerCoeffs map[string][]kyber.Scalar // per round id
+}
+
+func (am *Machine) SimSecrets() SimSecrets {
+	s := SimSecrets{
+		SecKey:       am.secKey,
+		BaseSeed:     append([]byte(nil), am.baseSeed...),
+		DealerCoeffs: make(map[string][]kyber.Scalar),
+	}
+	for id, inst := range am.dkgInstances {
+		s.DealerCoeffs[id] = inst.SimDealerSecrets()
+	}
+	return s
+}
+
+// SimDecrypt tries to open an ECIES ciphertext with this machine's long-term key.
+func (am *Machine) SimDecrypt(data []byte) ([]byte, error) {
+	return am.decryptDataFromParticipant(data)
+}
+
+// SimHasDKGInstance tells whether an in-memory DKG instance exists for the round.
+func (am *Machine) SimHasDKGInstance(id string) bool {
+	_, ok := am.dkgInstances[id]
+	return ok
+}
